@@ -1,6 +1,7 @@
 package main
 
 import (
+	"os"
 	"fmt"
 	"go/token"
 	"go/types"
@@ -1551,6 +1552,16 @@ func (g *Gen) resolveBefore(at ssa.Instruction, name string) *Val {
 			if same && ins == at {
 				// refs emitted right after `at` for its own result belong to it: look a little ahead
 				for j := i + 1; j < len(blk.Instrs); j++ {
+					if ex, isEx := blk.Instrs[j].(*ssa.Extract); isEx && isStoreInstr(at) {
+						// the remaining results of the tuple assignment `at` belongs to (x[0], borrow = f(..): the store
+						// of x[0] precedes the extraction of borrow): pure projections of an already computed tuple
+						if _, done := g.vals[ex]; !done {
+							if t, known := g.vals[ex.Tuple]; known && t.Tuple != nil && ex.Index < len(t.Tuple) {
+								g.vals[ex] = t.Tuple[ex.Index]
+							}
+						}
+						continue
+					}
 					ref, ok := blk.Instrs[j].(*ssa.DebugRef)
 					if !ok {
 						break
@@ -1876,6 +1887,11 @@ func (g *Gen) ensurePointCount() {
 					cnt["call:"+b.Name()]++
 				}
 			}
+			if os.Getenv("GOVC_POINTS") != "" { // contract-writing aid: list the program points of the unit
+				if n, ok := g.pointCount[i]; ok {
+					fmt.Fprintf(os.Stderr, "point %s block %d ordinal %d: %s  (%s)\n", g.unit, b.Index, n, i.String(), g.eng.fset.Position(i.Pos()))
+				}
+			}
 		}
 	}
 }
@@ -1899,3 +1915,5 @@ func (g *Gen) passDirective(fact string) *AtStmt {
 	}
 	return nil
 }
+
+func isStoreInstr(i ssa.Instruction) bool { _, ok := i.(*ssa.Store); return ok }
